@@ -106,8 +106,21 @@ def quoteWith (ip : Nat → Bool) (t : Txt) : Txt := [34] ++ quoteBody ip (t.len
 /-- strconv.Quote -/
 def quote (t : Txt) : Txt := quoteWith isPrint t
 
-/-- templates: key ↦ pieces (`inl` = text, `inr k` = child k (1-based); 0 = val, 100 = qval) -/
-def tmpl (key : String) : Option (List (String ⊕ Nat)) :=
+/-- a field name of a template: c<k> ↦ k, val ↦ 0, qval ↦ 100 -/
+def fieldIndex (name : String) : Option Nat :=
+  if name = "val" then some 0 else if name = "qval" then some 100
+  else if name.startsWith "c" then (name.drop 1).toString.toNat? else none
+
+/-- templates as EXTRACTED from prettyPrinterMap of the tree under test -/
+def tmplGen (key : String) : Option (List (String ⊕ Nat)) :=
+  match Ecal.Gen.C08.templates.find? (·.1 = key) with
+  | none => none
+  | some (_, pieces) => pieces.mapM fun (isField, t) =>
+      if isField then (fieldIndex t).map Sum.inr else some (Sum.inl t)
+
+/-- templates: key ↦ pieces (`inl` = text, `inr k` = child k (1-based); 0 = val, 100 = qval) — hand copy, used
+    when the extractor did not understand prettyPrinterMap -/
+def tmplHand (key : String) : Option (List (String ⊕ Nat)) :=
   let bin (op : String) := some [.inr 1, .inl (" " ++ op ++ " "), .inr 2]
   match key with
   | "string" => some [.inr 100] | "number" => some [.inr 0]
@@ -137,6 +150,13 @@ def tmpl (key : String) : Option (List (String ⊕ Nat)) :=
   | "finally_1" => some [.inl " finally {\n", .inr 1, .inl "}"]
   | "mutex_2" => some [.inl "mutex ", .inr 1, .inl " {\n", .inr 2, .inl "}\n"]
   | _ => none
+
+/-- the templates the printer model runs: the extracted ones when available -/
+def tmpl (key : String) : Option (List (String ⊕ Nat)) :=
+  if Ecal.Gen.C08.templatesOk then tmplGen key else tmplHand key
+
+def listThreshold : Nat := if Ecal.Gen.C08.templatesOk then Ecal.Gen.C08.listThreshold else 4
+def mapThreshold : Nat := if Ecal.Gen.C08.templatesOk then Ecal.Gen.C08.mapThreshold else 2
 
 /-- ppIsOperator: an infix operator, or a keyword that is parsed like a prefix operator (ndPrefix) -/
 def isOperator (n : Node) : Bool :=
@@ -261,12 +281,12 @@ def visitF : Nat → Option Node → Option Node → Except PErr Txt
       c ps (i + 1) ++ (if (kids.getD (i + 1) default).name != "as" && i + 2 < n then s "," else []) ++ [32]
     post (s " except " ++ parts ++ s "{\n" ++ c ps n ++ s "}")
   | "list" =>
-    let multi := n > 4
+    let multi := n > listThreshold
     let body : Txt := (rangeFrom 0 n).flatMap fun i =>
       c ps (i + 1) ++ (if i + 1 < n then (if multi then s "," else s ", ") else []) ++ (if multi then [10] else [])
     post (s "[" ++ (if multi then [10] else []) ++ body ++ s "]")
   | "map" =>
-    let multi := n > 2
+    let multi := n > mapThreshold
     let body : Txt := (rangeFrom 0 n).flatMap fun i =>
       c ps (i + 1) ++ (if i + 1 < n then (if multi then s "," else s ", ") else []) ++ (if multi then [10] else [])
     post (s "{" ++ (if multi then [10] else []) ++ body ++ s "}")
